@@ -222,11 +222,21 @@ def main(argv):
         else:
             info = lean_phase(ctx, mod)
         ctx.cov['pycode'] = C.ensure_pycode()
-        mod.run(ctx)
-        if (ctx.broken or ctx.disagreements) and not ctx.oracle_failures and hasattr(mod, 'search'):
-            print('[%s] an obligation or the correspondence broke; searching the real code for a failing input'
-                  % pid, flush=True)
-            mod.search(ctx)
+        from harness.anchorcov import AnchorCov
+        ac = AnchorCov(pid)
+        ac.start()
+        try:
+            mod.run(ctx)
+            if (ctx.broken or ctx.disagreements) and not ctx.oracle_failures and hasattr(mod, 'search'):
+                print('[%s] an obligation or the correspondence broke; searching the real code for a failing input'
+                      % pid, flush=True)
+                mod.search(ctx)
+        finally:
+            ac.stop()
+        try:
+            ctx.cov['anchor_coverage'] = ac.report()
+        except Exception as e:     # noqa  (a measurement, never a reason to fail a check)
+            ctx.cov['anchor_coverage'] = {'error': str(e)[:200]}
         return finish(ctx, mod, info)
     except Exception:
         traceback.print_exc()
